@@ -162,6 +162,17 @@ impl ConnectionLimits {
     }
 }
 
+#[cfg(feature = "verif")]
+impl ConnectionLimits {
+    /// Verification hook: `(incoming, outgoing)` connections currently counted.
+    pub fn verif_counts(&self) -> (usize, usize) {
+        (
+            self.incoming_connections.len(),
+            self.outgoing_connections.len(),
+        )
+    }
+}
+
 #[cfg(test)]
 mod tests {
     use super::*;
